@@ -73,10 +73,10 @@ def C08_more_statement (u : UriImpl) (cfg : ReqCfg) : Prop :=
     (Request.run u cfg ds).presented ≤ m
 
 /-- C17 for Content-Length of requests -/
-def allDigits (s : Bytes) : Bool := !s.isEmpty && s.all fun b => 48 ≤ b && b ≤ 57
+def allDigitsStmt (s : Bytes) : Bool := !s.isEmpty && s.all fun b => 48 ≤ b && b ≤ 57
 def C17_request_statement (u : UriImpl) (cfg : ReqCfg) : Prop :=
   ∀ ds : List Bytes, (Request.run u cfg ds).verdict = .complete →
-    ∀ v, headerValue (Request.run u cfg ds).st.headers kContentLength = some v → allDigits v = true
+    ∀ v, headerValue (Request.run u cfg ds).st.headers kContentLength = some v → allDigitsStmt v = true
 
 /-- a URI instance for witnesses: accepts exactly "/" -/
 def slashUri : UriImpl := { U := Bytes, parse := fun t => if t = [47] then some t else none, display := id, default := [] }
